@@ -29,6 +29,7 @@ var ndHarnesses = map[string]func(){
 	"Harness_C13": Harness_C13,
 	"Harness_C14_Conflict": Harness_C14_Conflict,
 	"Harness_C14_ToPos":    Harness_C14_ToPos,
+	"Harness_C04_K1":       Harness_C04_K1,
 }
 
 // toPos is the subject of C14; here it is the identity on offsets under symx (natively the real one runs).
